@@ -24,7 +24,15 @@ def mnemo_breg(i):
 
 def hexarg(i):
     if len(i.operands) > 0:
-        return [(Token.Constant, "%x" % (i.operands[0]))]
+        op = i.operands[0]
+        if op._is_cst:
+            return [(Token.Constant, "%x" % op)]
+        elif op._is_reg:
+            # DW_OP_regx
+            return [(Token.Register, str(op))]
+        else:
+            # DW_OP_bregx: register + offset
+            return [(Token.Memory, str(op))]
     else:
         return []
 
